@@ -70,6 +70,34 @@ fn main() {
             let script = std::fs::read_to_string(&path).expect("read script");
             cache::replay_script(&mut out, &script);
         }
+        // live mode: real threads, implementation-vs-oracle tests
+        "live" => {
+            let rounds = arg_u64(&args, "--rounds", 200);
+            let which = arg(&args, "--scenario").unwrap_or_else(|| "all".to_string());
+            // stdout must be flushed before a stalled scenario makes us exit
+            let mut run = |name: &str, out: &mut Out| {
+                let r = match name {
+                    "barrier" => live::barrier(rounds),
+                    "close_race" => live::close_race(rounds.min(400), seed),
+                    "protocol_storm" => live::protocol_storm((rounds / 4).max(10), seed),
+                    "ttl_mix" => live::ttl_mix(rounds * 1500),
+                    "workers_exit" => live::workers_exit((rounds / 10).max(6)),
+                    _ => return,
+                };
+                out.line(&r.line());
+                out.flush();
+            };
+            if which == "all" {
+                for n in ["barrier", "close_race", "protocol_storm", "workers_exit", "ttl_mix"] {
+                    run(n, &mut out);
+                }
+            } else {
+                run(&which, &mut out);
+            }
+            out.flush();
+            // threads of a wedged scenario may still be blocked: leave without joining them
+            std::process::exit(0);
+        }
         other => {
             eprintln!("unknown component {}", other);
             std::process::exit(2);
